@@ -183,6 +183,8 @@ SIM_SCENARIO(scen_c16, "c16", "C16", 6000000, 30000) {
                         int f = sim::self();
                         tbb::this_task_arena::isolate([&] {
                             world.iso_stack[f].push_back(region);
+                            // re-entering the arena the thread is already in must not disturb the isolation scope
+                            if (a.n % 2) ar.execute([] { for (int i = 0; i < 2; ++i) sim::upoint(); });
                             tbb::task_group inner;
                             for (int i = 0; i < 5; ++i) inner.run([&, region] { unit(aid, region, a.points); });
                             inner.wait();
@@ -221,7 +223,8 @@ SIM_SCENARIO(scen_c16b, "c16b", "C16", 6000000, 30000) {
     int rounds = (int)sim::draw_range(1, 4, "rounds"), ninner = (int)sim::draw_range(2, 6, "inner"), nenq = (int)sim::draw_range(1, 6, "enqueues");
     static const int ptsv[] = {2, 8, 30};
     int pts = sim::draw_of(ptsv, "points"), gap = (int)sim::draw(40, "gap"), nested = (int)sim::draw_range(2, 8, "nested");
-    d.add(hx::fmt("isolation-vs-enqueue arena(%d,%d) rounds=%d inner=%d enqueues=%d nested=%d points=%d gap=%d", ai.maxc, ai.reserved, rounds, ninner, nenq, nested, pts, gap));
+    bool reenter = sim::draw_bool("reenter_same_arena");
+    d.add(hx::fmt("isolation-vs-enqueue arena(%d,%d) rounds=%d inner=%d enqueues=%d nested=%d points=%d gap=%d reenter=%d", ai.maxc, ai.reserved, rounds, ninner, nenq, nested, pts, gap, (int)reenter));
     d.publish();
     std::vector<sim::event*> pend;
     std::vector<std::function<void()>> fns;
@@ -232,6 +235,7 @@ SIM_SCENARIO(scen_c16b, "c16b", "C16", 6000000, 30000) {
                 int region = world.next_region++;
                 tbb::this_task_arena::isolate([&] {
                     world.iso_stack[f].push_back(region);
+                    if (reenter) ai.a->execute([] { for (int i = 0; i < 2; ++i) sim::upoint(); });     // same arena: the scope's tag must survive
                     tbb::task_group inner;
                     for (int i = 0; i < ninner; ++i) inner.run([&, region] { unit(0, region, pts); });
                     inner.wait();
